@@ -98,7 +98,8 @@ CLAIMS["C17"] = {
             "after existing contents, and RESPONSE_LEN covers the maximum by constant arithmetic (R17.5); the padding rule is {0, 8-r} (R17.6); "
             "to_bytes/from_bytes of the four wire structs agree with each other and the spec layout, big-endian (R17.7); the version is "
             "validated before the type (R17.8); the stream list of the end-of-request sequence sent by Request::close is chosen from the writeable flag "
-            "only after close() made the request writeable (R17.9 = R7.3), so it is the role's output streams. Does NOT decide round-trip equality over all field values, reserved-byte behaviour, or the "
+            "only after close() made the request writeable (R17.9 = R7.3), so it is the role's output streams; the integer conversions the layouts go through "
+            "are the identity on the encoded value - enum -> integer is the discriminant, RequestFlags <-> u8 keep every bit (R17.10). Does NOT decide round-trip equality over all field values, reserved-byte behaviour, or the "
             "arithmetic inside nv::write / integer formatting.",
     "note": "spec/fastcgi.json is written from the FastCGI specification and the crate documentation, not from the code.",
     "design_ref": "DESIGN.md §4 C17",
@@ -127,7 +128,8 @@ CLAIMS["C04"] = {
             "back with input pending) and agreement of the three siblings; a path that does not test an atom is compared on every input it covers (R4.1); a "
             "GetValuesResult is emitted only when the whole remaining body is present, once, for a non-empty body, with the name-value "
             "decoder's input no longer than the record's remaining payload at every construction (E8 obligation) (R4.2); reply buffers are append-only except at the documented reset points (R4.3); "
-            "reported counts equal appended bytes (R4.4); a pending GetValues body cannot be discarded by other APIs (R4.5). Does NOT decide "
+            "reported counts equal appended bytes (R4.4); a pending GetValues body cannot be discarded by other APIs (R4.5); every call of request::Parser::parse clears the reply buffer before it "
+            "drives or yields, so no reply is handed out twice (R4.6 = R3.2). Does NOT decide "
             "which variables a body split at an arbitrary offset contributes (name-value prefix-monotonicity, C16) nor the arithmetic of "
             "consume_output(k) interleavings.",
     "note": "The oracle (engine/rules/c04.py: oracle) is hand-written from the FastCGI specification sections 3.3, 4, 5.1, 5.5; to_record / write_response encodings are C17's subject.",
